@@ -551,6 +551,7 @@ def run(tier, seed, replay=None):
     rep.absorb(run_cases(child_handshake, hcases, watchdog=600), 'handshake')
     c = rep.counters
     rep.floor('handshakes_suspended', c['handshakes_suspended'], 200)
+    rep.floor('onion_heavy_populations', c['onion_heavy_populations'], 10)
     rep.floor('handshakes_ended_good', c['handshakes_ended_good'], 50)
     rep.floor('handshakes_ended_bad', c['handshakes_ended_bad'], 20)
     rep.floor('peer_lists_checked', c['peer_lists_checked'], 5000)
